@@ -99,6 +99,37 @@ func genRec(cfg Config, emit func(string, bool, []string)) {
 			add("advance 33")
 			add("obs")
 		}
+		if c%25 == 3 && refresh == "" && !gcCase && !truncated {
+			// external prune requests (Reconciler.Prune) with periodic pruning off, on a table that is
+			// initialized from the start or whose initializer is marked done later: the number of Prune
+			// calls is compared with the iteration function translated from reconcileLoop
+			withInit := r.IntN(3) != 0
+			ops[len(ops)-1] += "-xprune"
+			if withInit {
+				ops[len(ops)-1] += "-init"
+			}
+			done := !withInit
+			for k := 0; k < 14; k++ {
+				switch x := r.IntN(10); {
+				case x < 4:
+					add("extprune")
+				case x < 5 && !done:
+					add("initdone")
+					done = true
+				case x < 8:
+					add("put %d %d", 1+r.IntN(3), r.IntN(100))
+				case x < 9:
+					add("del %d", 1+r.IntN(3))
+				default:
+					add("advance %d", 1+r.IntN(300))
+				}
+			}
+			if !done {
+				add("initdone")
+			}
+			add("extprune")
+			add("obs")
+		}
 		if c%25 == 9 && refresh == "" && !gcCase && !truncated {
 			// operations that take longer than the backoff: the wait before a retry counts from the failure
 			ops[len(ops)-1] = strings.Replace(ops[len(ops)-1], " exact", " oracle", 1)
@@ -366,6 +397,8 @@ type recCall struct {
 }
 
 type recExec struct {
+	pruneCalls atomic.Int64
+	pruneObs   bool // the number of Prune calls is part of the observation (cfg ...-xprune)
 	waiters      []*recWaiter
 	waiterCancel context.CancelFunc
 	waiterCtx    context.Context
@@ -593,6 +626,7 @@ func (o recOps) Prune(ctx context.Context, txn statedb.ReadTxn, objs iter.Seq2[*
 		e.o.Fail("C15", "prune-with-partial-contents", nil, fmt.Sprintf("Prune was handed [%s], the table holds [%s]", strings.Join(got, " "), strings.Join(want, " ")))
 	}
 	e.o.Notes["prune calls"]++
+	e.pruneCalls.Add(1)
 	return nil
 }
 func (o recOps) UpdateBatch(ctx context.Context, txn statedb.ReadTxn, batch []reconciler.BatchEntry[*recObj]) {
@@ -912,7 +946,11 @@ func (e *recExec) state() string {
 	if lw != 0 {
 		lwc = "+"
 	}
-	return fmt.Sprintf("calls=[%s] objs=[%s] lw=%s%s", strings.Join(cs, " "), strings.Join(objs, " "), lwc, e.waiterStates())
+	pr := ""
+	if e.pruneObs {
+		pr = fmt.Sprintf(" prunes=%d", e.pruneCalls.Load())
+	}
+	return fmt.Sprintf("calls=[%s] objs=[%s] lw=%s%s%s", strings.Join(cs, " "), strings.Join(objs, " "), lwc, e.waiterStates(), pr)
 }
 
 // settleOracle: the clauses of C15 / C16 that hold at every quiet point
@@ -1194,6 +1232,7 @@ func (e *recExec) Do(o *Out, f []string) string {
 			e.refresh = 700 * time.Millisecond
 		}
 		e.withInit = strings.Contains(f[4], "-init")
+		e.pruneObs = strings.Contains(f[4], "-xprune")
 		e.setup(minB, maxB, rs, strings.Contains(f[4], "-batch"))
 	case "put":
 		id, _ := strconv.ParseUint(f[1], 10, 64)
@@ -1222,6 +1261,9 @@ func (e *recExec) Do(o *Out, f []string) string {
 	case "multi":
 		// several user writes in ONE write transaction: "d<id>" deletes, "p<id>:<data>" puts
 		e.multi(strings.Split(f[1], ","))
+	case "extprune":
+		// Reconciler.Prune(): an external request for a prune round
+		e.rec.Prune()
 	case "initdone":
 		if e.initDone != nil {
 			wtxn := e.db.WriteTxn(e.table)
